@@ -331,3 +331,20 @@ Proof.
     + specialize (Ends x). rewrite change_step_out, att_step_out, Em in Ends. apply Ends; reflexivity.
     + cbn [about filter map app]. apply IH.
 Qed.
+
+(** hence what a passive observer reads about any one session id alternates:
+    on_join, on_leave, on_join, ... — starting with on_leave exactly when the
+    session was attached at the window's start *)
+Theorem observer_alternates_proof : forall z J L cfg pre mid s,
+    c_authz cfg = None ->
+    Forall op_ok (pre ++ mid) -> k0 cfg + N.of_nat (List.length (pre ++ mid)) <= max_idN ->
+    Forall (fun o => forges o = false) (pre ++ mid) ->
+    let r := fst (run (init_realm cfg) pre) in
+    In z (att [] (trace cfg pre)) ->
+    holds_sig (r_broker r) z J t_on_join MExact -> holds_sig (r_broker r) z L t_on_leave MExact ->
+    (forall e, In e (trace_from r mid) -> zpassive z e) ->
+    alt (negb (nmem s (att [] (trace cfg pre)))) (about s (observed z J L (trace_from r mid))).
+Proof.
+  intros z J L cfg pre mid s Ha Ho Hk Hf r Hz HJ HL Hp. subst r.
+  rewrite (window_balanced_proof z J L cfg pre mid Ha Ho Hk Hf Hz HJ HL Hp). apply changes_alternate_proof.
+Qed.
